@@ -41,9 +41,8 @@ impl Decimal {
         if self.coef == 0 || other.coef == 0 {
             return Some(Decimal::new(0, 0));
         }
-        let scale = |coef: u32, by: u32| -> Option<u64> {
-            10u64.checked_pow(by)?.checked_mul(coef as u64)
-        };
+        let scale =
+            |coef: u32, by: u32| -> Option<u64> { 10u64.checked_pow(by)?.checked_mul(coef as u64) };
         let a = scale(self.coef, other.exp.saturating_sub(self.exp))?;
         let b = scale(other.coef, self.exp.saturating_sub(other.exp))?;
         let coef = (a / gcd64(a, b)).checked_mul(b)?;
@@ -107,7 +106,13 @@ fn mk_or(parts: Vec<String>) -> String {
 }
 
 fn num_digits(n: i64) -> usize {
-    n.abs().to_string().len()
+    n.unsigned_abs().to_string().len()
+}
+
+/// `-n`, except that i64::MIN (what an out-of-range bound saturates to) has no negation
+fn neg(n: i64) -> Result<i64> {
+    n.checked_neg()
+        .ok_or_else(|| anyhow!("Integer bound {} is out of range", n))
 }
 
 pub fn rx_int_range(left: Option<i64>, right: Option<i64>) -> Result<String> {
@@ -137,7 +142,7 @@ pub fn rx_int_range(left: Option<i64>, right: Option<i64>) -> Result<String> {
                     rx_int_range(None, Some(-1))?,
                 ]))
             } else {
-                Ok(format!("-{}", rx_int_range(Some(-right), None)?))
+                Ok(format!("-{}", rx_int_range(Some(neg(right)?), None)?))
             }
         }
         (Some(left), Some(right)) => {
@@ -150,11 +155,14 @@ pub fn rx_int_range(left: Option<i64>, right: Option<i64>) -> Result<String> {
             }
             if left < 0 {
                 if right < 0 {
-                    Ok(format!("(-{})", rx_int_range(Some(-right), Some(-left))?))
+                    Ok(format!(
+                        "(-{})",
+                        rx_int_range(Some(neg(right)?), Some(neg(left)?))?
+                    ))
                 } else {
                     Ok(format!(
                         "(-{}|{})",
-                        rx_int_range(Some(0), Some(-left))?,
+                        rx_int_range(Some(0), Some(neg(left)?))?,
                         rx_int_range(Some(0), Some(right))?
                     ))
                 }
